@@ -3,7 +3,8 @@
    Case line = a lyx script with pseudo commands (lyx answers ?cmd to commands starting with #):
      docm TAB #s <schema> TAB #n <names> TAB #m <modules> TAB #k <json kinds> TAB #d <dump of t0> TAB
           { #b <fmt> <print opts> <hex of what libyang printed> } TAB <lyx commands>
-   For every #b command the model answers
+   The model answers first  W=<six bits>  (the executable hypotheses of the theorems hold on the dump: tabs_okb, canonb,
+   docb lexableb, docb std_valb, jdocb jlexb, jdocb nonulb), then for every #b command
      <fmt><opts> <hex of the MODEL's print of the dump> R=<the model's reader applied to LIBYANG's bytes gives
      clear_dflt (prune sel dump)> G=<the standard reader applied to libyang's bytes gives to_generic (prune sel dump)>
    joined by " | ". fmt: x XML, j JSON. opts: LYD_PRINT_* bits (0x01 siblings, 0x02 shrink, 0x04 keep empty containers,
@@ -51,7 +52,13 @@ let run (f : string list) : string =
          let tabs = { dt_names = parse_doc_names mods (field rest "n"); dt_mods = mods } in
          let jk = parse_jkinds (field rest "k") in
          let fo = parse_dump nt (field rest "d") in
-         let answers = List.filter_map (fun c ->
+         (* the executable hypotheses of the theorems on this case: side tables, canonical form, data classes of the XML
+            theorems (libyang side / standard side) and of the JSON theorems *)
+         let b2 b = if b then "1" else "0" in
+         let hyp = "W=" ^ b2 (tabs_okb sch tabs) ^ b2 (canonb sch None fo) ^
+                   b2 (List.for_all (docb sch tabs lexableb) fo) ^ b2 (List.for_all (docb sch tabs std_valb) fo) ^
+                   b2 (List.for_all (jdocb sch tabs jk jlexb) fo) ^ b2 (List.for_all (jdocb sch tabs jk nonulb) fo) in
+         let answers = hyp :: List.filter_map (fun c ->
            if starts c "#b " then begin
              match String.split_on_char ' ' c with
              | [_; fmt; opts; h] ->
@@ -73,9 +80,9 @@ let run (f : string list) : string =
                    let g = (match std_json_value lybytes with
                             | Some v -> v = json_tree sch tabs jk (prune sel fo)
                             | None -> false) in
-                   (* the state machine against the RFC 7951 rendering (claimed where the selection is uniform on
-                      every run of instances: explicit and report-all on validated trees; not in trim mode) *)
-                   let d = (o land 0x10 <> 0) || mine = json_doc sch tabs jk (prune sel fo) in
+                   (* LIBYANG's bytes against the RFC 7951 rendering of the selected part (claimed where the selection is
+                      uniform on every run of instances: explicit and report-all on validated trees; not in trim mode) *)
+                   let d = (o land 0x10 <> 0) || lybytes = json_doc sch tabs jk (prune sel fo) in
                    Some (Printf.sprintf "j%d %s R=%d G=%d D=%d" o (hex mine) (if r then 1 else 0) (if g then 1 else 0)
                            (if d then 1 else 0))
                  end
